@@ -53,6 +53,12 @@ func (bc *Context) buildLayers(ctx context.Context) ([]v1.Layer, error) {
 		return nil, fmt.Errorf("building filesystem: %w", err)
 	}
 
+	// As BuildLayer does before it serialises the filesystem: /etc/apk/repositories
+	// of the image lists the runtime repositories only, not the build-time ones.
+	if err := bc.postBuildSetApk(ctx); err != nil {
+		return nil, err
+	}
+
 	// Use our layering strategy to partition packages into a set of Budget groups.
 	groups, err := groupByOriginAndSize(pkgs, bc.ic.Layering.Budget)
 	if err != nil {
